@@ -82,7 +82,7 @@ def random_expr(rng: random.Random, depth: int) -> str:
     return e
 
 
-def observe(node: ast.expr):
+def observe(node: ast.expr, clear: bool = True):
     from rattr.analyser.util import get_basename_fullname_pair as old
     from rattr.ast.util import names_of
 
@@ -96,7 +96,8 @@ def observe(node: ast.expr):
             except BaseException as e:  # noqa: BLE001
                 return ("raise", type(e).__name__)
 
-    names_of.cache_clear()
+    if clear:
+        names_of.cache_clear()
     return [
         run(lambda: names_of(node, safe=True)),
         run(lambda: names_of(node, safe=True, unravel_attr_access_calls=False)),
@@ -126,7 +127,7 @@ def main(tier: str) -> int:
     srcs += [random_expr(rng, rdepth) for _ in range(n_rand)]
     # the starred form of a sample (Starred is only valid inside a display)
     srcs_star = [STAR.replace("{E}", s) for s in rng.sample(srcs, min(len(srcs), 300))]
-    cases, meta = [], []
+    cases, meta, stream = [], [], []
     seen = set()
     for s, star in itertools.chain(((s, False) for s in srcs), ((s, True) for s in srcs_star)):
         if (s, star) in seen:
@@ -144,8 +145,29 @@ def main(tier: str) -> int:
         except emit.EmitError:
             continue
         cases.append(term)
+        stream.append((s, star, obs))
         meta.append({"expr": ("*" if star else "") + (s[2:-1] if star else s), "names_of(safe)": obs[0], "names_of(safe,no-unravel)": obs[1],
                      "names_of(unsafe)": obs[2], "old(safe)": obs[4], "old(unsafe)": obs[5]})
+
+    # naming is a function of the tree alone: the same expressions named again as a STREAM of short-lived trees (each
+    # parsed, named and dropped before the next, the memo cache of names_of left as it is between them) must be spelt
+    # as they were with a fresh cache - a cache keyed on anything but the tree itself shows here
+    from rattr.ast.util import names_of as _names_of
+    _names_of.cache_clear()
+    n_stream, stream_bad = 0, []
+    for s, star, obs in stream[: (4000 if tier == "quick" else 40000)]:
+        node = expr_of(s)
+        if star:
+            node = node.elts[0]
+        again = observe(node, clear=False)
+        del node
+        n_stream += 1
+        if again != obs and len(stream_bad) < 5:
+            stream_bad.append({"expr": ("*" if star else "") + (s[2:-1] if star else s), "fresh cache": obs, "as part of a stream": again})
+    _names_of.cache_clear()
+    for m in stream_bad:
+        V.violation({"property": PROP, "why": "the spelling of an expression depends on which trees were named before it (names_of is not a function of the tree)",
+                     **m, "replay": "name the generated expressions in order, each parsed afresh and dropped after naming, without clearing names_of's cache"})
 
     n_targets = 0
     for label, node in target_nodes():
